@@ -271,6 +271,22 @@ CHECKS["C14"] = {
     ],
 }
 
+PRV = "./provider/"
+CHECKS["C17"] = {
+    "engine": "sweepsim",
+    "level": "exploration",
+    "technique": "stateful property-based testing (rapid) of the sweeping provider over a simulated swarm under synctest virtual time across several reprovide cycles; history oracle over the ADD_PROVIDER log with a brute-force nearest-r reference",
+    "level_text": "Generated swarms (constructed clusters), key sets, worker configurations and histories (start/stop/provide-once, churn, outages, restarts, address changes) run against the real SweepingProvider for 1.2-3.3 reprovide intervals of virtual time; "
+                  "the oracle reads the ADD_PROVIDER log and checks recipients, completeness with respect to the brute-force r nearest reachable peers of the swarm at send time, the reprovide bound and StopProviding; a model-based part checks the buffered wrapper. Exploration.",
+    "level_note": "Three regimes are generated and reported separately (bucket = r; bucket > r; swarm < r); routers that return only 1-2 peers are outside the documented operating assumptions and not generated; the oracle's verdict does not depend on the provider's "
+                  "internal random draws; message latency is 0 so a region send is atomic in virtual time.",
+    "parts": [
+        {"part": "sweep-mainstream", "pkg": PRV, "test": "TestVerif_C17_SweepA", "quick": 120, "thorough": 1500},
+        {"part": "sweep-bucket-gt-r", "pkg": PRV, "test": "TestVerif_C17_SweepB", "quick": 80, "thorough": 1000},
+        {"part": "sweep-tiny-swarm", "pkg": PRV, "test": "TestVerif_C17_SweepC", "quick": 80, "thorough": 1000},
+    ],
+}
+
 MANIFEST_HEAD = {
     "version": 1,
     "setup_cmd": "bin/check --setup",
